@@ -6,7 +6,8 @@
    the octagon ∩ image ∩ mask percentile and its checker. *)
 From Coq Require Import ZArith List Bool Sorted Permutation.
 From Centro Require Import Model.Median Spec.MedianSpec Proofs.MedianCheck Proofs.MedianHist
-  Proofs.MedianGeom Proofs.MedianRank Proofs.MedianRefute.
+  Proofs.MedianGeom Proofs.MedianRank Proofs.MedianRefute Proofs.MedianSlide Proofs.MedianStep.
+From Centro Require Model.VecC18 Model.RankC18.
 Import ListNotations.
 Open Scope Z_scope.
 
@@ -84,18 +85,29 @@ Theorem C07_geom_octagon : forall radius, 1 <= radius ->
 Proof. exact geom_octagon. Qed.
 Print Assumptions C07_geom_octagon.
 
-(* ---------------------------------------------------------------- sliding invariant (Partial)
+(* ---------------------------------------------------------------- sliding invariant (Partial, per layer)
 
-   Full statement, NOT proved:
-     forall data mask radius percent, rect rows cols data -> rect rows cols mask -> 1 <= radius ->
+   Full statement, NOT proved as one theorem:
+     forall data mask radius percent, rect rows cols data -> rect rows cols mask -> 2 <= radius ->
        0 <= percent <= 100 -> (all data in 0..255) -> (window area < 65536) ->
-       MedianSpec data mask radius percent (kernel Fixed data mask radius percent).
-   Missing lemma: acc_is_window_hist — after step_col at (row, c) the accumulator's coarse bins
-   and count are those of window (row, c) and each slot of the circular buffer holds the
-   histogram of its piece (the buffer bookkeeping: row_init clearing, the column guards of
-   deaccumulate, the lazy fine update).  Proved below: every geometric fact that invariant
-   rests on, for all radii and positions; the rank selection on top of it (above); plus a finite
-   sweep.  The gap is covered by exact differential testing of the line-level model. *)
+       MedianSpec data mask radius percent (kernel AsIs data mask radius percent).
+   Proved, for every image / mask / geometry / position (below):
+     layer A  C07_hist_col_step, C07_hist_row_steps: exact histogram identities on the real image —
+              one column step of the window, one row step of each of the five pieces;
+     layer B  C07_update_loc_spec: update_current_location re-establishes "slot field = histogram of
+              its piece" from the previous row's fields and touches nothing else (row step);
+              C07_col_step_spec: accumulate + deaccumulate turn "accumulator (coarse bins, count) =
+              window (row, c-1)" into "= window (row, c)", uint16/uint32 wrap-around included,
+              the column guards shown to skip only empty pieces (column step);
+     on top   C07_find_median_model_rank (rank selection), C07_asis_is_fixed (radius >= 2: the code
+              as written is the Fixed variant), C07_fixed_slots_distinct / C07_index_in_buffer /
+              C07_index_follow (buffer indices).
+   Missing lemmas, named: [kernel_inv] — the induction over the two loops of c_median_filter that
+   threads C07_update_loc_spec / C07_col_step_spec through fold_left (slot-distinctness within a
+   row, row_init clearing the two entering slots, first row on the zero buffer); and
+   [update_fine_spec] — the lazily replayed fine block equals the window's fine bins.
+   Stop-gap: the Finite sweeps C07_sliding_fixed_finite, C07_sliding_asis_finite2 and the exact
+   differential testing of the line-level model. *)
 
 (* the geometry identity oct(c) = oct(c-1) ∪ lead(c) ∖ trail(c), as an exact multiset identity *)
 Theorem C07_sliding_invariant_partial : forall R a2 dx dy, 1 <= a2 -> a2 < R ->
@@ -170,6 +182,101 @@ Theorem C07_sliding_fixed_finite :
 Proof. exact sliding_fixed_finite. Qed.
 Print Assumptions C07_sliding_fixed_finite.
 
+(* ---------------------------------------------------------------- layer A: exact histograms *)
+
+Theorem C07_hist_col_step : forall e : env, 1 <= a2 e -> a2 e < R e -> forall (c row : Z) (q : Z -> bool),
+  cnt e (Soct e c row) q =
+  cnt e (Soct e (c - 1) row) q + cnt e (at_ (bTR e) c row) q + cnt e (at_ (bED e) c row) q +
+  cnt e (at_ (bBR e) c row) q - cnt e (at_ (bTL e) c row) q - cnt e (at_ (bTE e) c row) q -
+  cnt e (at_ (bBL e) c row) q.
+Proof. exact hist_col_step. Qed.
+Print Assumptions C07_hist_col_step.
+
+Theorem C07_hist_col_start : forall e : env, a2 e < R e -> forall (row : Z) (q : Z -> bool),
+  cnt e (Soct e (- R e - 1) row) q = 0.
+Proof. exact hist_col_start. Qed.
+Print Assumptions C07_hist_col_start.
+
+Theorem C07_hist_row_steps : forall e : env, 1 <= e_a2 e -> e_a2 e < e_R e -> forall (c row : Z) (q : Z -> bool),
+  cnt e (at_ (bTL e) c row) q = cnt e (at_ (bTL e) (c + 1) (row - 1)) q - pixv e (sc_last_tl e) c row q + pixv e (sc_tl e) c row q /\
+  cnt e (at_ (bBR e) c row) q = cnt e (at_ (bBR e) (c + 1) (row - 1)) q - pixv e (sc_last_br e) c row q + pixv e (sc_br e) c row q /\
+  cnt e (at_ (bTR e) c row) q = cnt e (at_ (bTR e) (c - 1) (row - 1)) q - pixv e (sc_last_tr e) c row q + pixv e (sc_tr e) c row q /\
+  cnt e (at_ (bBL e) c row) q = cnt e (at_ (bBL e) (c - 1) (row - 1)) q - pixv e (sc_last_bl e) c row q + pixv e (sc_bl e) c row q /\
+  cnt e (at_ (bED e) c row) q = cnt e (at_ (bED e) c (row - 1)) q - pixv e (sc_last_le e) c row q + pixv e (sc_le e) c row q.
+Proof. exact hist_row_steps. Qed.
+Print Assumptions C07_hist_row_steps.
+
+(* ---------------------------------------------------------------- layer B: the model's operations *)
+
+(* one column step preserves "accumulator = histogram of the window" *)
+Theorem C07_col_step_spec : forall e : env, 1 <= e_a2 e -> e_a2 e < e_R e -> forall (s : st) (c : Z),
+  let row := s_row s in
+  SlotIs e (slot s (tr_bl e row c)) TR (at_ (bTR e) c row) ->
+  SlotIs e (slot s (lead_ix e c)) ED (at_ (bED e) c row) ->
+  SlotIs e (slot s (tl_br e row c)) BR (at_ (bBR e) c row) ->
+  SlotIs e (slot s (tl_br e row c)) TL (at_ (bTL e) c row) ->
+  SlotIs e (slot s (tr_bl e row c)) BL (at_ (bBL e) c row) ->
+  (e_R e < c -> SlotIs e (slot s (trail_ix e c)) ED (at_ (bED e) (c - 2 * e_R e - 1) row)) ->
+  hN e (Soct e c row) < M16 ->
+  hN e (Soct e (c - 1) row) < M16 ->
+  BinsAre 16 (coarse (s_acc s)) (hC e (Soct e (c - 1) row)) ->
+  s_accn s = hN e (Soct e (c - 1) row) mod M32 ->
+  let s' := deacc_coarse e (acc_coarse e s c) c in
+  BinsAre 16 (coarse (s_acc s')) (hC e (Soct e c row)) /\
+  s_accn s' = hN e (Soct e c row) mod M32 /\
+  s_cols s' = s_cols s /\
+  fine (s_acc s') = fine (s_acc s) /\ s_last s' = s_last s /\ s_row s' = s_row s /\ s_col s' = s_col s.
+Proof. exact col_step_spec. Qed.
+Print Assumptions C07_col_step_spec.
+
+(* one row step re-establishes the five pieces of the current column *)
+Theorem C07_update_loc_spec : forall e : env, 1 <= e_a2 e -> e_a2 e < e_R e -> Data8 e -> forall s : st,
+  let c := s_col s in
+  let row := s_row s in
+  let tlo := tl_br e row c in
+  let tro := tr_bl e row c in
+  let leo := lead_ix e c in
+  0 < e_SL e ->
+  length (s_cols s) = Z.to_nat (e_SL e) ->
+  SlotIs e (slot s tlo) TL (at_ (bTL e) (c + 1) (row - 1)) ->
+  SlotIs e (slot s tro) TR (at_ (bTR e) (c - 1) (row - 1)) ->
+  SlotIs e (slot s tro) BL (at_ (bBL e) (c - 1) (row - 1)) ->
+  SlotIs e (slot s tlo) BR (at_ (bBR e) (c + 1) (row - 1)) ->
+  SlotIs e (slot s leo) ED (at_ (bED e) c (row - 1)) ->
+  let s' := update_loc e s in
+  SlotIs e (slot s' tlo) TL (at_ (bTL e) c row) /\
+  SlotIs e (slot s' tro) TR (at_ (bTR e) c row) /\
+  SlotIs e (slot s' tro) BL (at_ (bBL e) c row) /\
+  SlotIs e (slot s' tlo) BR (at_ (bBR e) c row) /\
+  SlotIs e (slot s' leo) ED (at_ (bED e) c row) /\
+  (forall (o' : Z) (k' : pname),
+   0 <= o' ->
+   ~ (o' = tlo /\ (k' = TL \/ k' = BR)) ->
+   ~ (o' = tro /\ (k' = TR \/ k' = BL)) ->
+   ~ (o' = leo /\ k' = ED) ->
+   get_p k' (slot s' o') = get_p k' (slot s o') /\ get_n k' (slot s' o') = get_n k' (slot s o')) /\
+  length (s_cols s') = length (s_cols s) /\
+  s_acc s' = s_acc s /\
+  s_accn s' = s_accn s /\ s_last s' = s_last s /\ s_row s' = s_row s /\ s_col s' = s_col s.
+Proof. exact update_loc_spec. Qed.
+Print Assumptions C07_update_loc_spec.
+
+(* for radius >= 2 the code as written is the Fixed variant *)
+Theorem C07_asis_is_fixed : forall data mask radius percent, 2 <= radius ->
+  kernel AsIs data mask radius percent = kernel Fixed data mask radius percent.
+Proof. exact asis_is_fixed. Qed.
+Print Assumptions C07_asis_is_fixed.
+
+(* Finite: the code as written meets the specification for every mask of 2x4, 4x2, 1x6, 6x1 images,
+   radii 2, 3, 4, two percentiles (3 840 kernel runs inside Coq) *)
+Theorem C07_sliding_asis_finite2 :
+  forall h w, In (h, w) sweep2_shapes -> forall m, In m (all_masks (h * w)) ->
+  forall radius percent, In (radius, percent) sweep2_cfg ->
+  let data := chunk_data w h sweep_vals in let mask := chunk_rows w h m in
+  MedianSpec data mask radius percent (kernel AsIs data mask radius percent).
+Proof. exact sliding_asis_finite2. Qed.
+Print Assumptions C07_sliding_asis_finite2.
+
 (* ---------------------------------------------------------------- wrapper_exact (Full) *)
 
 Theorem C07_rank_iso : forall u, StronglySorted Z.lt u -> forall x y, In x u -> In y u ->
@@ -193,18 +300,31 @@ Theorem C07_wrapper_exact : forall rows cols data mask radius percent o8,
 Proof. exact wrapper_exact. Qed.
 Print Assumptions C07_wrapper_exact.
 
-(* the model's wrapper is that composition on the ranked path ... *)
-Theorem C07_wrapper_model_shape : forall v intlike data mask radius percent o,
-  wrapper v intlike data mask radius percent = WOut true o ->
+(* the model's wrapper is that composition on the ranked path with at most 255 distinct values ... *)
+Theorem C07_wrapper_model_shape : forall v intlike orders data mask radius percent o,
   let u := sort_u (masked_vals data mask) in
-  (length u <= 255)%nat /\ o = map (map (unrk u)) (kernel v (rank_image u data mask) mask radius percent).
+  (length u <= 255)%nat ->
+  wrapper v intlike orders data mask radius percent = WOut true o ->
+  o = map (map (unrk u)) (kernel v (rank_image u data mask) mask radius percent).
 Proof. exact wrapper_model_shape. Qed.
 Print Assumptions C07_wrapper_model_shape.
 
+(* ... with more values it runs b18's proven model of rank_order(data[mask], nbins=255) (C18:
+   rank_order_bins_correct — monotone merge to <= 255 levels, table entries are input values) on
+   the argsort orders recorded from the implementation ... *)
+Theorem C07_wrapper_model_merged : forall v intlike orders data mask radius percent o,
+  let mv := masked_vals data mask in
+  (255 < length (sort_u mv))%nat ->
+  wrapper v intlike orders data mask radius percent = WOut true o ->
+  exists r tr, RankC18.rank_order_bins_with (RankC18.replay_oracle orders) (VecC18.argsort mv) mv 255 = Some (r, tr) /\
+    o = map (map (fun x => nth (Z.to_nat x) tr 0)) (kernel v (fill_img mask (map Z.of_nat r)) mask radius percent).
+Proof. exact wrapper_model_merged. Qed.
+Print Assumptions C07_wrapper_model_merged.
+
 (* ... and the kernel on the masked image itself on the direct path, which is taken exactly when
    the dtype is integer and every MASKED pixel lies in 0..255 (values outside the mask play no role) *)
-Theorem C07_wrapper_model_direct : forall v intlike data mask radius percent o,
-  wrapper v intlike data mask radius percent = WOut false o ->
+Theorem C07_wrapper_model_direct : forall v intlike orders data mask radius percent o,
+  wrapper v intlike orders data mask radius percent = WOut false o ->
   o = data /\ forallb (forallb negb) mask = true \/
   intlike = true /\ Forall (fun x => 0 <= x <= 255) (masked_vals data mask) /\
   o = kernel v (map_img (fun d (m : bool) => if m then d else 0) data mask) mask radius percent.
